@@ -2,7 +2,10 @@
 size_of::<Self>() bytes of the value.  Kani only (raw byte views are outside Verus).  The
 harness loops run over the fixed object size with unwinding assertions on, so a pass is a
 complete proof for that union, not a bounded one."""
-from .emit import Unit
+from .emit import Unit, trait_of
+import re
+
+COVERS = ["Debug"]
 
 
 def kani(P, u, prop):
@@ -11,6 +14,16 @@ def kani(P, u, prop):
 pub fn bytes(x: &TI) -> [u8; N] { unsafe { core::mem::transmute_copy::<TI, [u8; N]>(x) } }
 pub fn size_ok() -> bool { core::mem::size_of::<TI>() == N }
 """ % n)
+    if "Debug" in P.focus:
+        name = _dbg_name(P)
+        body = ("core::fmt::Debug::fmt(&b[..], f)" if name is False else 'f.debug_tuple("%s").field(&&b[..]).finish()' % name)
+        u.kani_oracle.append("""/// what the educed Debug must print: core::fmt's own builders over the value's size_of::<Self>() bytes
+pub struct Expected<'a>(pub &'a TI);
+impl<'a> core::fmt::Debug for Expected<'a> {
+    fn fmt(&self, f: &mut core::fmt::Formatter<'_>) -> core::fmt::Result { let b = bytes(self.0); %s }
+}
+""" % body)
+        u.replay.append('{ let x = oracle::mk(s); chk(out, "{:?}", format!("{:?}", x), format!("{:?}", oracle::Expected(&x))); chk(out, "{:#?}", format!("{:#?}", x), format!("{:#?}", oracle::Expected(&x))); }')
     if "PartialEq" in P.focus:
         u.kani_harness.append("""
 #[kani::proof]
@@ -59,3 +72,52 @@ pub fn union_clone_h() {
         u.kani_oracle.append("pub fn needs_copy<T: Copy>() {}\n")
         u.kani_obls["union_clone_h"] = ("%s/%s/Clone::clone/contract" % (prop, P.pid), "bytes(a.clone()) == bytes(a); the union is Copy")
         u.replay.append('{ let a = oracle::mk(s); let c = Clone::clone(&a); chk(out, "bytes(a.clone())", oracle::bytes(&c), oracle::bytes(&a)); }')
+
+
+# ---------------------------------------------------------------------------------
+# Debug on unions: Verus, on the verbatim impl with two mechanical replacements (post_render)
+def _dbg_name(P):
+    n = P.s("debug", "name", "default")
+    if n == "default" or n is True:
+        return P.name
+    return n          # False -> nameless, str -> custom name
+
+
+def verus(P, impls, u, prop="C20"):
+    if "Debug" not in P.focus:
+        u.skip_verus = "only Debug on unions has a Verus unit (byte views of ==, hash, clone: Kani)"
+        return u
+    ims = [im for im in impls if trait_of(im) == "Debug"]
+    if len(ims) != 1:
+        u.skip_verus = "expected one Debug impl"
+        return u
+    ty = P.ty_generic()
+    view = "spec_view({p0}, vstd::layout::size_of::<%s>() as int)" % ty
+    name = _dbg_name(P)
+    if name is False:
+        ens = "r == slice_fmt(%s@, f_state(old({p1})))" % view
+        txt = "fmt(x, f) == <[u8] as Debug>::fmt(the size_of::<Self>() bytes of x, f)"
+    else:
+        ens = 'r == tfin(tt_field(tt_start(f_state(old({p1})), "%s"@), dyn_id(&%s)))' % (name, view)
+        txt = 'fmt(x, f) == f.debug_tuple("%s").field(&<the size_of::<Self>() bytes of x>).finish()' % name
+    u.verus_edits[("Debug", "fmt")] = ens
+    u.verus_obls["%s::fmt" % P.name] = ("%s/%s/Debug::fmt/ensures" % (prop, P.pid), txt)
+    return u
+
+
+RAW_VIEW = re.compile(r"unsafe\s*\{\s*::core::slice::from_raw_parts\(\s*self\s+as\s+\*const\s+Self\s+as\s+\*const\s+u8\s*,\s*(\w+)\s*\)\s*\}")
+SLICE_FMT = re.compile(r"::core::fmt::Debug::fmt\(\s*(\w+)\s*,\s*f\s*\)")
+
+
+def post_render(P, rendered, log):
+    """the two constructs Verus cannot ingest are replaced by stubs with assumed contracts (prelude):
+    the raw byte view and the final call of the slice's own Debug impl; everything else stays verbatim"""
+    if "Debug" not in P.focus:
+        return rendered, ""
+    out, n1 = RAW_VIEW.subn(lambda m: "crate::bytes_view(self, %s)" % m.group(1), rendered)
+    if n1:
+        log.append("replaced `unsafe { slice::from_raw_parts(self as *const Self as *const u8, n) }` by the stub bytes_view(self, n) (assumed contract: the n bytes at self)")
+    out, n2 = SLICE_FMT.subn(lambda m: "crate::slice_debug_fmt(%s, f)" % m.group(1), out)
+    if n2:
+        log.append("replaced `Debug::fmt(<slice>, f)` by the stub slice_debug_fmt (assumed contract: the slice's own Debug)")
+    return out, ""
